@@ -30,3 +30,72 @@ MUTANTS = [
          old="    dt = float(dt)\n    xi = float(xi)", new="    dt = float(dt)\n    xi = float(np.float32(xi)) if xi > 0.99 else float(xi)",
          why="near-critical damping rounded to single precision"),
 ]
+
+# ---- window mutants (mid-range enumerations): below the threshold the pinned code runs, above it a subtly wrong variant
+_LOOP = "    for i in range(len(acc) - 1):  # possibly speed up using scipy.signal.lfilter\n"
+_W = "    w = 6.2831853 / periods[s:]\n"
+_AB = "    a, b = compute_a_and_b(xi, w, dt)\n"
+_ALLOC = ("    resp_u = np.zeros([len(periods), len(acc)], dtype=float)\n"
+          "    resp_v = np.zeros([len(periods), len(acc)], dtype=float)\n")
+_BODY = ("        resp_u[s:, i + 1] = (a[0][0] * resp_u[s:, i] + a[0][1] * resp_v[s:, i] + b[0][0] * acc[i] + b[0][1] * acc[i + 1])\n"
+         "        resp_v[s:, i + 1] = (a[1][0] * resp_u[s:, i] + a[1][1] * resp_v[s:, i] + b[1][0] * acc[i] + b[1][1] * acc[i + 1])\n")
+MUTANTS += [
+    dict(id="c01-w-timeblock-carry-20000", prop="C01", file="eqsig/sdof.py", old=_LOOP,
+         new="    blk = 8192 if len(acc) > 20000 else len(acc) + 1\n" + _LOOP +
+             "        if i >= 2 * blk and i % blk == 0:\n"
+             "            resp_v[s:, i] = resp_v[s:, i - 1]  # seam of the blocked time loop: stale velocity carried over\n",
+         why="window: records longer than 20 000 samples are integrated in blocks of 8192 samples; from the third block on the "
+             "velocity carried across the seam is one step old"),
+    dict(id="c01-w-many-periods-float32-700", prop="C01", file="eqsig/sdof.py", old=_AB,
+         new=_AB + "    if len(w) > 700:\n        a = a.astype(np.float32).astype(float)  # 'the transition matrix is well conditioned'\n",
+         why="window: with more than 700 periods the transition matrices are held in single precision"),
+    dict(id="c01-w-product-dropped-tail-2e6", prop="C01", file="eqsig/sdof.py", old=_LOOP,
+         new="    n_steps = len(acc) - 1\n    if len(periods) * len(acc) > 2000000:\n        n_steps = (n_steps // 256) * 256  # whole blocks only\n"
+             "    for i in range(n_steps):  # possibly speed up using scipy.signal.lfilter\n",
+         why="window: above 2e6 response values the time loop runs over whole blocks of 256 steps only; the last partial block stays zero"),
+    dict(id="c01-w-accsignal-cache-5000", prop="C01", file="eqsig/single.py",
+         old="        resp_u, resp_v, resp_a = dh.response_series(self.values, self.dt, self.response_times, xi)\n        return resp_u, resp_v, resp_a\n",
+         new="        key = (self.npts, tuple(np.asarray(self.response_times, dtype=float).tolist()))\n"
+             "        if 5000 <= self.npts <= 250000 and getattr(self, '_rs_cache', None) is not None and self._rs_cache[0] == key:\n"
+             "            return self._rs_cache[1]\n"
+             "        resp_u, resp_v, resp_a = dh.response_series(self.values, self.dt, self.response_times, xi)\n"
+             "        self._rs_cache = (key, (resp_u, resp_v, resp_a))\n"
+             "        return resp_u, resp_v, resp_a\n",
+         why="window: for records of 5 000 - 250 000 samples AccSignal.response_series keeps the last result, keyed on record length and "
+             "periods only - stale after the damping or the values change"),
+    dict(id="c01-w-wrapper-halves-70000", prop="C01", file="eqsig/sdof.py",
+         old="    return nigam_and_jennings_response(motion, dt, periods, xi)\n",
+         new="    if len(motion) > 70000:  # two passes to limit the size of the temporaries\n"
+             "        h = len(motion) // 2\n"
+             "        r1 = nigam_and_jennings_response(motion[:h], dt, periods, xi)\n"
+             "        r2 = nigam_and_jennings_response(motion[h:], dt, periods, xi)\n"
+             "        return tuple(np.concatenate([x, y], axis=1) for x, y in zip(r1, r2))\n"
+             "    return nigam_and_jennings_response(motion, dt, periods, xi)\n",
+         why="window: response_series splits records longer than 70 000 samples in two halves and restarts the second from rest"),
+    dict(id="c01-w-period-seam-100", prop="C01", file="eqsig/sdof.py", old=_W,
+         new=_W + "    if len(w) > 100:\n        w[96::48] = w[95::48][:len(w[96::48])]  # first row of every block from the third on\n",
+         why="window: with more than 100 periods, from the third block of 48 on the first oscillator of a block repeats the previous period"),
+    dict(id="c01-w-t0-row-tail-250000", prop="C01", file="eqsig/sdof.py",
+         old="        sdof_acc[0] = acc\n",
+         new="        if len(acc) > 250000:\n            sdof_acc[0, :-1] = acc[:-1]\n        else:\n            sdof_acc[0] = acc\n",
+         why="window: for records longer than 250 000 samples the T=0 row misses its last sample"),
+    dict(id="c01-w-product-float32-state-1.5e7", prop="C01", file="eqsig/sdof.py", old=_ALLOC,
+         new="    st = np.float32 if len(periods) * len(acc) > 15000000 else float\n"
+             "    resp_u = np.zeros([len(periods), len(acc)], dtype=st)\n    resp_v = np.zeros([len(periods), len(acc)], dtype=st)\n",
+         why="window: above 1.5e7 response values the state arrays are single precision (halves the memory)"),
+    # behaviour-preserving window refactorings: the mid-range clauses must stay quiet
+    dict(id="c01-s-period-blocked-correct", prop="C01", file="eqsig/sdof.py", expect="survive",
+         old=_LOOP + "        # x_i+1 = A cross (u, v) + B cross (acc_i, acc_i+1)  # Eq 2.7a\n" + _BODY,
+         new="    for j0 in range(s, len(periods), 128):  # oscillators advanced in blocks of 128\n"
+             "        a, b = compute_a_and_b(xi, 6.2831853 / periods[j0:j0 + 128], dt)\n"
+             "        u, v = resp_u[j0:j0 + 128], resp_v[j0:j0 + 128]\n"
+             "        for i in range(len(acc) - 1):\n"
+             "            u[:, i + 1] = (a[0][0] * u[:, i] + a[0][1] * v[:, i] + b[0][0] * acc[i] + b[0][1] * acc[i + 1])\n"
+             "            v[:, i + 1] = (a[1][0] * u[:, i] + a[1][1] * v[:, i] + b[1][0] * acc[i] + b[1][1] * acc[i + 1])\n",
+         why="correct period-blocked time loop (the seeded r5 change without its offset defect): must not raise an alarm"),
+    dict(id="c01-s-time-blocked-correct", prop="C01", file="eqsig/sdof.py", expect="survive",
+         old=_LOOP + "        # x_i+1 = A cross (u, v) + B cross (acc_i, acc_i+1)  # Eq 2.7a\n" + _BODY,
+         new="    for i0 in range(0, len(acc) - 1, 4096):  # time loop in blocks of 4096 steps, state carried in the arrays\n"
+             "      for i in range(i0, min(i0 + 4096, len(acc) - 1)):\n" + _BODY,
+         why="correct time-blocked loop: must not raise an alarm"),
+]
